@@ -5,9 +5,10 @@ Reads (never executes) nessai/samplers/nestedsampler.py and turns
 alphabet of coq/Lib/Effects.v, one effect per Python statement, together with the comparison
 operators of the two likelihood filters and the `side` of the searchsorted call, as data.
 
-Statements that touch no tracked field become Skip; a tracked field used in a shape there is
-no rule for becomes Unknown (every checker rejects it); a whole function in a shape there is no
-rule for raises Declined (then the correspondence decides alone).
+Statements that touch no tracked field become Skip.  Known-bad shapes are kept as data so that the
+checker rejects them (`>=` -> Ge, side="right" -> SRight, `worst = self.live_points[0]` without the
+copy -> Unknown).  Any other statement that touches a tracked field in a shape there is no rule for
+raises Declined: declining is not a violation, the correspondence then decides alone.
 """
 import ast
 
